@@ -1,6 +1,6 @@
 (* Store/Session.v — model of pymap/backend/session.py:BaseSession (message
    commands) composed with pymap/imap/state.py:ConnectionState.do_* for one
-   connection, over the dict backend.  Definitions only.
+   connection, over the dict and the maildir backend.  Definitions only.
 
    boxes   = mailbox name -> mbox (MailboxSet; creation/deletion/rename are not modelled)
    outcome = what one command body leaves behind, before do_command forks:
@@ -27,13 +27,18 @@
    selected mailbox received \Recent (None: nobody, the message is stored recent).
    Which session WeakSet iteration picks is not determined by the model;
    System.label_ok says which picks are possible.
-   sync b s = MailboxData.update_selected(s) (dict backend). *)
+   sync b s = MailboxData.update_selected(s): dict consumes the modification log, maildir
+   rescans (mb_md b).  cached_of b v u = the flags of the session's cached message. *)
 From PV Require Import Base.Prelude Store.Base Store.Flags Store.ModSeq Store.Mailbox
      Store.View Store.Compare Wire.SeqSet.
 
 Definition boxes := list (N * mbox).
 
-Definition cached_of (b : mbox) (u : N) : option flags := option_map m_flags (mb_cached u b).
+(* the permanent flags of the session's cached message object (_cache[uid]):
+   dict: the mailbox's own (aliased) object; maildir: the session's snapshot, taken together
+   with its _flags_key_map entry, so the two always agree *)
+Definition cached_of (b : mbox) (v : view) (u : N) : option flags :=
+  if mb_md b then aget u (v_fkeys v) else option_map m_flags (mb_cached u b).
 
 Definition with_modseq (s : selected) (m : option N) : selected :=
   MkSel (sel_box s) (sel_readonly s) m (sel_hide s) (sel_silenced s) (sel_prev s) (sel_view s)
@@ -45,11 +50,18 @@ Definition with_recent_set (s : selected) (r : list N) : selected :=
   MkSel (sel_box s) (sel_readonly s) (sel_modseq s) (sel_hide s) (sel_silenced s) (sel_prev s)
         (sel_view s) r.
 
-(* MailboxData.update_selected *)
+(* MailboxData.update_selected.
+   dict: consume the modification log from the session's mod_sequence.
+   maildir: rescan (messages()) and SelectedMailbox.set_messages: every existing message is
+   passed to _update, expunged = the uids of the view that no longer exist. *)
 Definition sync (b : mbox) (s : selected) : selected :=
+  let all := map (fun m => (m_uid m, m_flags m)) (mb_msgs b) in
+  if mb_md b
+  then add_updates all (ndiff (v_sorted (sel_view s)) (mb_uids b)) s
+  else
   let s1 := with_modseq s (Some (ms_highest (mb_log b))) in
   match sel_modseq s with
-  | None => add_updates (map (fun m => (m_uid m, m_flags m)) (mb_msgs b)) [] s1
+  | None => add_updates all [] s1
   | Some m =>
     let '(upd, exp) := ms_find_updated m (mb_log b) in
     add_updates (flat_map (fun u => match mb_alive u b with
@@ -94,8 +106,11 @@ Definition msg_loop (op : N -> mbox -> option (mbox * msg * bool)) (targets : li
                  | Some (b', m, ex) => Some (b', acc ++ [(fst su, m, ex)])
                  end
                end) targets (Some (b, [])).
-Definition op_get (uid : N) (b : mbox) : option (mbox * msg * bool) :=
-  match mb_get uid b with Some (m, ex) => Some (b, m, ex) | None => None end.
+(* the per-message calls, closed over the view that supplies the cached message *)
+Definition op_get (v : view) (uid : N) (b : mbox) : option (mbox * msg * bool) :=
+  match mb_get uid (aget uid (v_fkeys v)) b with Some (m, ex) => Some (b, m, ex) | None => None end.
+Definition op_update (v : view) (op : flagop) (fl : flags) (uid : N) (b : mbox)
+  : option (mbox * msg * bool) := mb_update uid (aget uid (v_fkeys v)) op fl b.
 
 (* ---------------------------------------------------------------- SELECT *)
 Definition do_select (bs : boxes) (name : N) (readonly : bool) : outcome :=
@@ -165,7 +180,7 @@ Definition do_store (bs : boxes) (s : selected) (sset : seqset) (by_uid : bool) 
     let targets := view_select sset by_uid (sel_view s0) in
     let s1 := if silent then silence (keyed_targets (sel_view s0) targets) (fs_of fl) op s0 else s0 in
       let pset := perm_intersect (fs_of fl) in
-      match msg_loop (fun u b => mb_update u op pset b) targets b with
+      match msg_loop (op_update (sel_view s) op pset) targets b with
       | None => server_bug bs
       | Some (b', msgs) =>
         let s2 := sync b' s1 in
@@ -183,7 +198,7 @@ Definition do_store (bs : boxes) (s : selected) (sset : seqset) (by_uid : bool) 
 
 (* --------------------------------------------------------------- EXPUNGE *)
 Definition find_deleted (b : mbox) (s : selected) (uid_set : seqset) : option (list N) :=
-  match msg_loop op_get (view_select uid_set true (sel_view s)) b with
+  match msg_loop (op_get (sel_view s)) (view_select uid_set true (sel_view s)) b with
   | None => None
   | Some (_, msgs) =>
     Some (map (fun x : N * msg * bool => m_uid (snd (fst x)))
@@ -272,7 +287,7 @@ Definition do_fetch (bs : boxes) (s : selected) (sset : seqset) (by_uid want_uid
   | Some b =>
     let s0 := if by_uid then s else with_hide s in
     let seen := negb (sel_readonly s0) && set_seen in
-    match msg_loop (if seen then (fun u b => mb_update u FAdd [F_SEEN] b) else op_get)
+    match msg_loop (if seen then op_update (sel_view s) FAdd [F_SEEN] else op_get (sel_view s))
                    (view_select sset by_uid (sel_view s0)) b with
     | None => server_bug bs
     | Some (b', msgs) =>
@@ -310,7 +325,7 @@ Definition do_search (bs : boxes) (s : selected) (by_uid : bool)
                       | Some (_, false) => nmem seq flat
                       | None => true end in
         ok_set && forallb (fun fe : N * bool => Bool.eqb (fs_mem (fst fe) fl) (snd fe)) fkeys in
-    match msg_loop op_get (view_select pre pre_uid v) b with
+    match msg_loop (op_get v) (view_select pre pre_uid v) b with
     | None => server_bug bs
     | Some (_, msgs) =>
       let hits := filter matches msgs in
